@@ -146,6 +146,11 @@ func TestWorker(t *testing.T) {
 				res.Samples = append(res.Samples, b)
 			}
 		}
+		if v != nil && v.Oracle == "harness" {
+			// the harness could not build or run its own scenario: trouble (exit 2), never a violation
+			fmt.Fprintf(os.Stderr, "HARNESS: %s (property %s seed %d shard %d run %d)\n", v.Detail, id, seed, shard, run)
+			os.Exit(2)
+		}
 		if v != nil {
 			orig, _ := json.Marshal(sc)
 			min, mv, n := props.Minimise(p, sc, v, env, 2000)
